@@ -11,6 +11,7 @@ EXTENDS Numbers
 (* deliver exactly these vectors (a structural check of the binding)    *)
 TermCount ==
   [ euler    |-> [mass |-> 4, mom |-> 3, ener |-> 4],
+    eulersim |-> [mass |-> 4, mom |-> 3, ener |-> 4, similar |-> 2],      \* self-similar flow: d/dt = -(xi/t) d/dxi, similarity checked alongside
     cognone  |-> [mass |-> 4, mom |-> 4, ener |-> 5],
     cogdiv   |-> [mass |-> 4, mom |-> 4, ener |-> 5, flux |-> 4],
     cogfull  |-> [mass |-> 4, mom |-> 4, ener |-> 5],
@@ -60,7 +61,7 @@ R_EHEP == {"00", "I", "II", "III", "IV", "V", "0H", "0V", "None"}
 G_EHEP == {<<a, "cont", b>> : a \in R_EHEP \ {"0H", "00"}, b \in R_EHEP \ {"0H", "00"}}
           \cup {<<a, "detonation", "0H">> : a \in {"I", "III", "IV", "V"}}
           \cup {<<"00", "piston", b>> : b \in {"I", "II", "III", "IV", "V"}} \cup {<<"0H", "interface", "0V">>}
-Families == {"Noh", "Noh2", "Noh2Cog", "Sedov", "EPpiston", "EHEP", "Mader", "BBNoh"} \cup {"Blake", "SuOlson", "RadShock", "Riemann2D", "SDRZ"} \cup BurnFams \cup RiemannFams \cup PlainFams \cup CogNone \cup CogDiv \cup CogFull \cup CogShock
+Families == {"Noh", "Noh2", "Noh2Cog", "Sedov", "EPpiston", "EHEP", "Mader", "BBNoh", "RiemannJWL"} \cup {"Blake", "SuOlson", "RadShock", "Riemann2D", "SDRZ"} \cup BurnFams \cup RiemannFams \cup PlainFams \cup CogNone \cup CogDiv \cup CogFull \cup CogShock
 
 Cat == [f \in Families |->
   CASE f = "Noh"        -> Row("gamma", "euler",   "closed", {"post", "pre"}, G_PostPre, FALSE)
@@ -78,7 +79,8 @@ Cat == [f \in Families |->
     [] f = "Blake"      -> RowF("none", "none", "closed", {"he"}, G_Smooth, FALSE, {})
     [] f \in BurnFams   -> RowF("none", "none", "closed", {"detonator", "he"}, G_Smooth, FALSE, {})
     [] f = "RiemannIG"  -> RowF("gamma2", "euler", "closed", R_Riemann, G_Riemann, FALSE, {"R"})
-    [] f = "RiemannGen" -> RowF("gamma2", "euler", "table",  R_Riemann, G_Riemann, FALSE, {"R"})
+    [] f = "RiemannGen" -> RowF("additive", "eulersim", "geos",  R_Riemann, G_Riemann, FALSE, {"R"})
+    [] f = "RiemannJWL" -> RowF("additive", "eulersim", "geos",  R_Riemann, G_Riemann, FALSE, {"R"})
     [] f \in PlainFams  -> Row("none",  "none",    IF f = "Mader" THEN "table" ELSE IF f \in {"Rod1D", "Hutchens1", "RodNH", "Sandwich", "Rectangle", "Hutchens2"} THEN "series" ELSE "closed", {"all"}, G_Smooth, FALSE)
     [] f \in CogNone    -> Row("cog",   "cognone", "closed", {"all"}, G_Smooth, FALSE)
     [] f \in CogDiv     -> Row("cog",   "cogdiv",  "closed", {"all"}, G_Smooth, FALSE)
